@@ -47,6 +47,8 @@ VARIABLES n, c, failFast, variant, beh,     \* the configuration (fixed by Init)
           budget,    \* iterations left in the submission loop
           syncPut,   \* a sync completion happened in the current chain
           pendFut,   \* future variant: completing thread still has to run its second lock section
+          pendRet,   \* list / generator: the completing thread has released the lock but its callback has not
+                     \* returned yet (it has nothing left to do: LoopReturn) - the caller may run in between
           firstExc,  \* list/future: first failure seen in fail-fast mode (0 = none)
           notified,  \* the waiting caller has been notified
           phase,     \* caller: init, collect, waiting, returned, raised, gen, gwaiting, finished
@@ -60,7 +62,7 @@ VARIABLES n, c, failFast, variant, beh,     \* the configuration (fixed by Init)
           act
 
 cfgvars == <<n, c, failFast, variant, beh>>
-vars == <<n, c, failFast, variant, beh, next, running, res, order, peak, holder, pc, cur, budget, syncPut, pendFut,
+vars == <<n, c, failFast, variant, beh, next, running, res, order, peak, holder, pc, cur, budget, syncPut, pendFut, pendRet,
           firstExc, notified, phase, out, raised, consumed, futN, futVal, futExc, futOut, act>>
 
 A(name, i) == [name |-> name, i |-> i]
@@ -78,7 +80,7 @@ Init ==
     /\ variant \in Variants
     /\ beh \in [1..n -> Behs]
     /\ next = 1 /\ running = {} /\ res = [i \in 1..n |-> "none"] /\ order = <<>> /\ peak = 0
-    /\ holder = "none" /\ pc = "idle" /\ cur = 0 /\ budget = 0 /\ syncPut = FALSE /\ pendFut = FALSE
+    /\ holder = "none" /\ pc = "idle" /\ cur = 0 /\ budget = 0 /\ syncPut = FALSE /\ pendFut = FALSE /\ pendRet = FALSE
     /\ firstExc = 0 /\ notified = FALSE /\ phase = "init" /\ out = <<>> /\ raised = 0 /\ consumed = 0
     /\ futN = 0 /\ futVal = "none" /\ futExc = 0 /\ futOut = <<>>
     /\ act = A("Init", 0)
@@ -100,7 +102,7 @@ EmptyCall ==
        THEN phase' = "returned" /\ FutComplete
        ELSE phase' = (IF variant = "gen" THEN "finished" ELSE "returned") /\ UNCHANGED <<futN, futVal, futExc, futOut>>
     /\ act' = A("EmptyCall", 0)
-    /\ UNCHANGED <<cfgvars, next, running, res, order, peak, holder, pc, cur, budget, syncPut, pendFut, firstExc,
+    /\ UNCHANGED <<cfgvars, next, running, res, order, peak, holder, pc, cur, budget, syncPut, pendFut, pendRet, firstExc,
                    notified, out, raised, consumed>>
 
 (* _ConcurrentExecutor.execute: with self._condition: for n in range(concurrency): ... *)
@@ -110,7 +112,7 @@ BeginSubmit ==
     /\ holder' = "caller" /\ pc' = "next" /\ budget' = c /\ syncPut' = FALSE
     /\ phase' = "submitting"
     /\ act' = A("BeginSubmit", 0)
-    /\ UNCHANGED <<cfgvars, next, running, res, order, peak, cur, pendFut, firstExc, notified, out, raised, consumed,
+    /\ UNCHANGED <<cfgvars, next, running, res, order, peak, cur, pendFut, pendRet, firstExc, notified, out, raised, consumed,
                    futN, futVal, futExc, futOut>>
 
 EndSectionVars ==
@@ -132,17 +134,17 @@ Start ==
                THEN cur' = next /\ pc' = "put" /\ UNCHANGED running
                ELSE running' = running \cup {next} /\ pc' = "ret" /\ UNCHANGED cur
             /\ UNCHANGED budget
-    /\ UNCHANGED <<cfgvars, res, order, holder, syncPut, pendFut, firstExc, notified, phase, out, raised, consumed,
+    /\ UNCHANGED <<cfgvars, res, order, holder, syncPut, pendFut, pendRet, firstExc, notified, phase, out, raised, consumed,
                    futN, futVal, futExc, futOut>>
 
 (* a statement that completes later: its callback runs _put_result on the completing thread *)
 Complete(i) ==
     /\ i \in running
-    /\ holder = "none" /\ ~pendFut
+    /\ holder = "none" /\ ~pendFut /\ ~pendRet        \* one event-loop thread: its previous callback has returned
     /\ holder' = "loop" /\ pc' = "put" /\ cur' = i /\ syncPut' = FALSE
     /\ running' = running \ {i}
     /\ act' = A("Complete", i)
-    /\ UNCHANGED <<cfgvars, next, res, order, peak, budget, pendFut, firstExc, notified, phase, out, raised, consumed,
+    /\ UNCHANGED <<cfgvars, next, res, order, peak, budget, pendFut, pendRet, firstExc, notified, phase, out, raised, consumed,
                    futN, futVal, futExc, futOut>>
 
 Waiting == phase \in {"waiting", "gwaiting"}
@@ -164,7 +166,7 @@ Put ==
           ELSE /\ UNCHANGED firstExc
                /\ pc' = "next"
                /\ notified' = IF variant = "gen" THEN (notified \/ Waiting) ELSE notified
-    /\ UNCHANGED <<cfgvars, next, running, peak, holder, cur, budget, pendFut, phase, out, raised, consumed,
+    /\ UNCHANGED <<cfgvars, next, running, peak, holder, cur, budget, pendFut, pendRet, phase, out, raised, consumed,
                    futN, futVal, futExc, futOut>>
 
 (* end of a chain: back in the submission loop, or at the end of the completing thread's section *)
@@ -178,12 +180,23 @@ Ret ==
           IF variant = "future" /\ syncPut /\ allDone THEN FutComplete ELSE UNCHANGED <<futN, futVal, futExc, futOut>>
        /\ IF holder = "caller" /\ budget > 1
           THEN /\ budget' = budget - 1 /\ pc' = "next" /\ syncPut' = FALSE
-               /\ UNCHANGED <<holder, cur, phase, pendFut>>
+               /\ UNCHANGED <<holder, cur, phase, pendFut, pendRet>>
           ELSE /\ EndSectionVars
                /\ phase' = IF holder = "caller" THEN (IF variant = "gen" THEN "gen" ELSE "collect") ELSE phase
                /\ pendFut' = (holder = "loop" /\ variant = "future")
+               /\ pendRet' = (holder = "loop" /\ variant # "future")
     /\ act' = A("Ret", 0)
     /\ UNCHANGED <<cfgvars, next, running, res, order, peak, firstExc, out, raised, consumed>>
+
+(* list / generator: after releasing the lock the completing thread's _put_result simply returns.  The step *)
+(* is explicit so that the caller's actions are explored (and replayed) between the release and the return: *)
+(* nothing the completing thread still does may matter (it must not start statements or touch the results). *)
+LoopReturn ==
+    /\ pendRet /\ holder = "none"
+    /\ pendRet' = FALSE
+    /\ act' = A("LoopReturn", 0)
+    /\ UNCHANGED <<cfgvars, next, running, res, order, peak, holder, pc, cur, budget, syncPut, pendFut, firstExc, notified,
+                   phase, out, raised, consumed, futN, futVal, futExc, futOut>>
 
 (* ConcurrentExecutorFutureResults._put_result, second lock section of a later completion *)
 FutCheck ==
@@ -215,7 +228,7 @@ Collect ==
             /\ UNCHANGED <<out, raised, futN, futVal, futExc, futOut>>
        ELSE ListOutcome /\ UNCHANGED notified
     /\ act' = A("Collect", 0)
-    /\ UNCHANGED <<cfgvars, next, running, res, order, peak, holder, pc, cur, budget, syncPut, pendFut, firstExc, consumed>>
+    /\ UNCHANGED <<cfgvars, next, running, res, order, peak, holder, pc, cur, budget, syncPut, pendFut, pendRet, firstExc, consumed>>
 
 Wake ==
     /\ phase = "waiting" /\ notified /\ holder = "none"
@@ -223,7 +236,7 @@ Wake ==
        THEN ListOutcome /\ UNCHANGED notified
        ELSE notified' = FALSE /\ UNCHANGED <<phase, out, raised, futN, futVal, futExc, futOut>>
     /\ act' = A("Wake", 0)
-    /\ UNCHANGED <<cfgvars, next, running, res, order, peak, holder, pc, cur, budget, syncPut, pendFut, firstExc, consumed>>
+    /\ UNCHANGED <<cfgvars, next, running, res, order, peak, holder, pc, cur, budget, syncPut, pendFut, pendRet, firstExc, consumed>>
 
 (* ConcurrentExecutorGenResults._results: one next() of the consumer *)
 GenStep ==
@@ -243,23 +256,23 @@ Consume ==
     /\ phase = "gen" /\ holder = "none"
     /\ GenStep
     /\ act' = A("Consume", 0)
-    /\ UNCHANGED <<cfgvars, next, running, res, order, peak, holder, pc, cur, budget, syncPut, pendFut, firstExc,
+    /\ UNCHANGED <<cfgvars, next, running, res, order, peak, holder, pc, cur, budget, syncPut, pendFut, pendRet, firstExc,
                    futN, futVal, futExc, futOut>>
 
 GWake ==
     /\ phase = "gwaiting" /\ notified /\ holder = "none"
     /\ GenStep
     /\ act' = A("GWake", 0)
-    /\ UNCHANGED <<cfgvars, next, running, res, order, peak, holder, pc, cur, budget, syncPut, pendFut, firstExc,
+    /\ UNCHANGED <<cfgvars, next, running, res, order, peak, holder, pc, cur, budget, syncPut, pendFut, pendRet, firstExc,
                    futN, futVal, futExc, futOut>>
 
 CallerDone == phase \in {"returned", "raised", "finished"}
-Terminal == CallerDone /\ running = {} /\ holder = "none" /\ ~pendFut
+Terminal == CallerDone /\ running = {} /\ holder = "none" /\ ~pendFut /\ ~pendRet
 Finish == Terminal /\ UNCHANGED vars
 
 CompleteAny == \E i \in Stmts : Complete(i)
 
-Next == \/ EmptyCall \/ BeginSubmit \/ Start \/ Put \/ Ret \/ FutCheck
+Next == \/ EmptyCall \/ BeginSubmit \/ Start \/ Put \/ Ret \/ FutCheck \/ LoopReturn
         \/ CompleteAny
         \/ Collect \/ Wake \/ Consume \/ GWake
         \/ Finish
@@ -321,6 +334,7 @@ Witness_WaitAndWake == ~(act.name = "Wake" /\ phase = "raised")
 Witness_FailFastWhileRunning == ~(phase = "raised" /\ running # {})
 Witness_FutureByCaller == ~(variant = "future" /\ act.name \in {"Wake", "Collect"} /\ futVal = "exc" /\ running # {})
 Witness_GenWaits == ~(phase = "gwaiting")
+Witness_ConsumerBeforeLoopReturn == ~(pendRet /\ variant = "gen" /\ act.name \in {"GWake", "Consume"} /\ next <= n)
 Witness_FullConcurrency == ~(peak = c /\ c >= 2 /\ Cardinality(running) = c)
 \* the same witnesses as stuttering probe actions: with NEXT NextW and -coverage, a non-zero count for W_x
 \* shows x is reachable without a separate TLC run (NextW is used for nothing else)
@@ -330,5 +344,6 @@ W_FailFastWhileRunning == ~Witness_FailFastWhileRunning /\ UNCHANGED vars
 W_FutureByCaller == ~Witness_FutureByCaller /\ UNCHANGED vars
 W_GenWaits == ~Witness_GenWaits /\ UNCHANGED vars
 W_FullConcurrency == ~Witness_FullConcurrency /\ UNCHANGED vars
-NextW == Next \/ W_SyncChain \/ W_WaitAndWake \/ W_FailFastWhileRunning \/ W_FutureByCaller \/ W_GenWaits \/ W_FullConcurrency
+W_ConsumerBeforeLoopReturn == ~Witness_ConsumerBeforeLoopReturn /\ UNCHANGED vars
+NextW == Next \/ W_SyncChain \/ W_WaitAndWake \/ W_FailFastWhileRunning \/ W_FutureByCaller \/ W_GenWaits \/ W_FullConcurrency \/ W_ConsumerBeforeLoopReturn
 =============================================================================
